@@ -86,7 +86,8 @@ func (p *rawPeer) close() {
 	p.c.Close()
 	select {
 	case <-p.done:
-	case <-time.After(10 * time.Second):
+	case <-time.After(3 * time.Second):
+		noteHang()
 	}
 }
 
